@@ -3,7 +3,7 @@
     intercepted (step decorators, retry, call, group, failure handler, group runner, pype,
     pipeline, root); each theorem below is that layer, for ALL behaviours of everything
     nested inside it ([rg], [rp] arbitrary). *)
-From PV Require Import Engine EngineProofs.
+From PV Require Import Engine EngineProofs Ctl Control CtlProofs.
 Open Scope string_scope.
 Notation RG := (list val -> option string -> option string -> st -> R).
 Notation RP := (string -> option (list string) -> option (list val) -> option string -> option string -> st -> R).
@@ -106,6 +106,41 @@ Theorem C02_reports_success : forall fuel lib name d gs su fa j s1 sg,
   api_run fuel lib name d gs su fa j = (OOk, s1).
 Proof. exact api_run_stop. Qed.
 Print Assumptions C02_reports_success.
+
+(** * Tie B: the group and failure-handler layers READ FROM THE SOURCE are the model's.
+    Generated on every run from [StepsRunner.run_step_group] / [run_failure_step_group] and the
+    class statements of pypyr/errors.py: which handler an instruction meets is decided by the
+    class hierarchy the code declares. *)
+Theorem C02_source_group_layer_is_model : forall lib (rg : RG) (rp : RP) g raise_stop s,
+  gen_run_step_group (run_step rg rp) rg (pipeline_of lib s) g raise_stop s
+  = run_group lib rg rp g raise_stop s.
+Proof. exact gen_run_step_group_is_model. Qed.
+Print Assumptions C02_source_group_layer_is_model.
+
+Theorem C02_source_failure_layer_is_model : forall lib (rg : RG) (rp : RP) g s,
+  gen_run_failure_step_group (run_step rg rp) rg (pipeline_of lib s) g s = run_failure lib rg rp g s.
+Proof. exact gen_run_failure_step_group_is_model. Qed.
+Print Assumptions C02_source_failure_layer_is_model.
+
+(** the three stops are Stops and not control-of-flow instructions, Call / Jump the reverse, and
+    HandledError neither — in the class table read from pypyr/errors.py *)
+Theorem C02_source_class_table :
+  forall c,
+  isinst errors_classes (ORaise (RSig SStop)) ["Stop"] = true /\
+  isinst errors_classes (ORaise (RSig SStopPipeline)) ["Stop"] = true /\
+  isinst errors_classes (ORaise (RSig SStopStepGroup)) ["Stop"] = true /\
+  isinst errors_classes (ORaise (RSig SStopStepGroup)) ["StopPipeline"] = false /\
+  isinst errors_classes (ORaise (RSig SStopPipeline)) ["StopStepGroup"] = false /\
+  isinst errors_classes (ORaise (RSig SStop)) ["ControlOfFlowInstruction"] = false /\
+  isinst errors_classes (ORaise (RSig (SCall c))) ["ControlOfFlowInstruction"] = true /\
+  isinst errors_classes (ORaise (RSig (SJump c))) ["ControlOfFlowInstruction"] = true /\
+  isinst errors_classes (ORaise (RSig (SCall c))) ["Stop"] = false /\
+  isinst errors_classes (ORaise (RSig (SJump c))) ["Jump"] = true /\
+  isinst errors_classes (ORaise (RSig (SCall c))) ["Jump"] = false /\
+  isinst errors_classes (OHandled (RSig SStop)) ["ControlOfFlowInstruction"; "Stop"] = false /\
+  isinst errors_classes (OHandled (RSig SStop)) ["Exception"] = true.
+Proof. exact source_class_table. Qed.
+Print Assumptions C02_source_class_table.
 
 (** * Non-vacuity: stop under swallow + retry inside a called group inside a child pipeline *)
 Definition mk (name : string) (b : body) (inn : dict) (sw : val) (rt : option rcfg) : step :=
